@@ -62,9 +62,9 @@ FLOORS = {
               "sets": {"interleavings": 150}},
     "thorough": {"evaluations": 6000, "distinct_nontrivial": 6000,
                  "counters": {"copies_made": 7000, "held_pair_checks": 100000, "separate_lock_checks": 18000, "free_checks": 47000,
-                              "copies_made_while_held": 3000, "thread_cases": 4000, "critical_sections": 4000000,
+                              "copies_made_while_held": 3000, "thread_cases": 3000, "critical_sections": 3000000,
                               "handovers": 500000, "max_occupancy_checks": 8000},
-                 "sets": {"interleavings": 4000}},
+                 "sets": {"interleavings": 3000}},
 }
 EXHAUSTIVE_SPACE = ("deterministic pairwise exclusion checks for every combination of 13 token kinds x 10 copy methods x "
                     "{chain, star} x 1..6 copies (all ordered member pairs, same thread and other thread); the thread "
